@@ -5,6 +5,12 @@ import json
 VERIF = os.path.dirname(os.path.dirname(os.path.abspath(__file__)))
 
 CHECKS = {
+    'C01': dict(
+        engine='progenum',
+        technique='bounded-exhaustive enumeration of SSA graph programs compiled by the real SynthDef; emitted bytes decoded by an independent SCgf reader and compared in polynomial normal form with a reference interpreter',
+        text='Every straight-line graph program over the leaf/constant/operator alphabet (all sharing patterns, all output options) up to 2 statements (3 with reduced pools in thorough) plus every operator method is compiled and its bytes are checked unit by unit against the AST meaning; this decides the property for all programs below the bound, which the hand-written tests (bytes never inspected) cannot.',
+        note='Trusted: mc/oracles/{scgf,poly,server_ops}.py and the reference interpreter in mc/graphprog.py. Bounds: 1 statement full pool, 2 statements small pool, 3 statements tiny pools (quick: 1/64 slice). Nothing is claimed for larger programs or other unit classes.',
+        ref='5 C01'),
     'C09': dict(
         engine='histbfs',
         technique='explicit-state BFS over all operation histories of the real TaskQueue/OscScore up to a depth, state-deduplicated, each step compared with a list reference model',
